@@ -1,6 +1,7 @@
 package simrt
 
 import (
+	"io"
 	"io/fs"
 	"os"
 	"path/filepath"
@@ -490,3 +491,141 @@ func (m *MemFS) ReadDirNames(name string) ([]string, error) {
 }
 
 func (m *MemFS) Getwd() (string, error) { return m.Cwd, nil }
+
+// ---- os.Open seam -------------------------------------------------------------
+
+// File replaces *os.File for files obtained through os.Open (read-only use).
+type File struct {
+	real *os.File
+	fs   *MemFS
+	name string
+	node *Node
+	data []byte
+	off  int
+	dirRead bool
+}
+
+// Open replaces os.Open.
+func Open(name string) (*File, error) {
+	if CurFS == nil {
+		f, err := os.Open(name)
+		if err != nil {
+			return nil, err
+		}
+		return &File{real: f, name: name}, nil
+	}
+	Yield(SiteFS)
+	m, ok := CurFS.(*MemFS)
+	if !ok {
+		return nil, perr("open", name, syscall.ENOSYS)
+	}
+	return m.Open(name)
+}
+
+func (m *MemFS) Open(name string) (*File, error) {
+	if e := m.op("open", name); e != 0 {
+		return nil, perr("open", name, e)
+	}
+	if len(m.Vanish) > 0 {
+		c := filepath.Clean(m.abs(name))
+		if m.Vanish[c] {
+			delete(m.Vanish, c)
+			m.Remove(c)
+			m.fire("vanish")
+		}
+	}
+	n, _, e := m.walkPath(name, true, 0)
+	if e != 0 {
+		m.fire("open-" + errnoName(e))
+		return nil, perr("open", name, e)
+	}
+	if n.OpenErr != 0 {
+		m.fire("open-" + errnoName(n.OpenErr))
+		return nil, perr("open", name, n.OpenErr)
+	}
+	f := &File{fs: m, name: name, node: n}
+	if n.Kind == FileNode {
+		f.data = n.Data
+		if n.Short >= 0 && n.Short < len(f.data) {
+			f.data = f.data[:n.Short]
+			if n.ReadErr == 0 {
+				m.fire("short-read")
+			}
+		}
+	}
+	return f, nil
+}
+
+func (f *File) Name() string { return f.name }
+
+func (f *File) Read(p []byte) (int, error) {
+	if f.real != nil {
+		return f.real.Read(p)
+	}
+	Yield(SiteFS)
+	if f.node.Kind == DirNode {
+		f.fs.fire("read-EISDIR")
+		return 0, perr("read", f.name, syscall.EISDIR)
+	}
+	if f.off >= len(f.data) {
+		if f.node.ReadErr != 0 {
+			f.fs.fire("read-" + errnoName(f.node.ReadErr))
+			return 0, perr("read", f.name, f.node.ReadErr)
+		}
+		return 0, io.EOF
+	}
+	n := copy(p, f.data[f.off:])
+	f.off += n
+	return n, nil
+}
+
+func (f *File) Close() error {
+	if f.real != nil {
+		return f.real.Close()
+	}
+	return nil
+}
+
+func (f *File) Stat() (fs.FileInfo, error) {
+	if f.real != nil {
+		return f.real.Stat()
+	}
+	return infoOf(f.name, f.node), nil
+}
+
+func (f *File) Readdirnames(n int) ([]string, error) {
+	if f.real != nil {
+		return f.real.Readdirnames(n)
+	}
+	if f.node.Kind != DirNode {
+		return nil, perr("readdirent", f.name, syscall.ENOTDIR)
+	}
+	if f.dirRead {
+		if n > 0 {
+			return nil, io.EOF
+		}
+		return nil, nil
+	}
+	f.dirRead = true
+	names := make([]string, 0, len(f.node.Kids))
+	for k := range f.node.Kids {
+		names = append(names, k)
+	}
+	sort.Strings(names)
+	return names, nil
+}
+
+func (f *File) ReadDir(n int) ([]fs.DirEntry, error) {
+	if f.real != nil {
+		return f.real.ReadDir(n)
+	}
+	names, err := f.Readdirnames(n)
+	if err != nil {
+		return nil, err
+	}
+	var out []fs.DirEntry
+	for _, name := range names {
+		out = append(out, dirEntry{infoOf(name, f.node.Kids[name])})
+	}
+	return out, nil
+}
